@@ -991,6 +991,8 @@ pub enum IpOp {
     Remove(u8),
     Idle,
     Iter,
+    /// offer the node in role r again (same key, its current record, connected)
+    Reoffer(u8),
 }
 
 pub struct IpWorld {
@@ -1077,6 +1079,9 @@ impl IpWorld {
             1 => self.live.iter().rev().find(|l| l.1 == 0).copied(),
             2 => self.table.buckets_iter().nth(255).and_then(|b| b.pending().map(|p| hash_of(p.verif_key()))).map(|h| (h, self.live.iter().find(|l| l.0 == h).map(|l| l.1).unwrap_or(0))),
             3 => self.table.buckets_iter().nth(255).and_then(|b| b.iter().next().map(|n| hash_of(&n.key))).map(|h| (h, 9)),
+            // 5: second entry of bucket 255, 6: last entry of bucket 255
+            5 => self.table.buckets_iter().nth(255).and_then(|b| b.iter().nth(1).map(|n| hash_of(&n.key))).map(|h| (h, 9)),
+            6 => self.table.buckets_iter().nth(255).and_then(|b| if b.num_entries() > 2 { b.iter().last().map(|n| hash_of(&n.key)) } else { None }).map(|h| (h, 9)),
             _ => self.live.iter().find(|l| l.1 != 0 && l.1 < 4).copied(),
         }
     }
@@ -1182,6 +1187,31 @@ impl IpWorld {
                     obs = "norole".into();
                 }
             }
+            IpOp::Reoffer(r) => {
+                if let Some((h, _)) = self.role(*r) {
+                    // its current record, wherever it is held (entry or pending slot)
+                    let cur: Option<Enr> = self
+                        .table
+                        .buckets_iter()
+                        .find_map(|b| b.iter().find(|n| hash_of(&n.key) == h).map(|n| n.value.clone()).or_else(|| b.pending().filter(|p| hash_of(p.verif_key()) == h).map(|p| p.value().clone())));
+                    if let Some(rec) = cur {
+                        let res = self.table.insert_or_update(&key_of(h), rec, status(1));
+                        if matches!(res, InsertResult::Failed(_)) {
+                            *self.counters.entry("refusals").or_insert(0) += 1;
+                        }
+                        let present = self.table.iter_ref().any(|e| hash_of(e.node.key) == h)
+                            || self.table.buckets_iter().any(|b| b.pending().map(|p| hash_of(p.verif_key()) == h).unwrap_or(false));
+                        if !present {
+                            self.live.retain(|l| l.0 != h);
+                        }
+                        obs = short_ir(&res);
+                    } else {
+                        obs = "gone".into();
+                    }
+                } else {
+                    obs = "norole".into();
+                }
+            }
             IpOp::Idle => {
                 clock::advance(Duration::from_secs(61));
                 obs = "idle".into();
@@ -1236,9 +1266,12 @@ impl IpWorld {
                 }
             }
         }
-        for r in [0u8, 1, 2, 4] {
+        for r in [0u8, 1, 2, 4, 3, 5] {
             if let Some((_, cur)) = self.role(r) {
                 for s in [0u8, 1] {
+                    if (r == 3 || r == 5) && s != 0 {
+                        continue; // members of the full bucket only move into subnet A
+                    }
                     if s != cur || r == 2 {
                         ops.push(IpOp::Update(r, s));
                     }
@@ -1251,9 +1284,14 @@ impl IpWorld {
                 ops.push(IpOp::Status(r, false));
             }
         }
-        for r in [0u8, 1, 3] {
+        for r in [0u8, 1, 3, 6] {
             if self.role(r).is_some() {
                 ops.push(IpOp::Remove(r));
+            }
+        }
+        for r in [2u8, 0] {
+            if self.role(r).is_some() {
+                ops.push(IpOp::Reoffer(r));
             }
         }
         ops.push(IpOp::Idle);
@@ -1315,6 +1353,8 @@ pub fn run_c16() {
         vec![IpOp::SeedFull, IpOp::Seed(9, 5)],
         vec![IpOp::SeedFull, IpOp::Seed(9, 5), IpOp::Insert(0, 1, 2)],
         vec![IpOp::SeedFull, IpOp::Seed(8, 5), IpOp::Insert(0, 1, 2)],
+        // subnet dynamics inside one full bucket with a pending candidate, no A nodes elsewhere
+        vec![IpOp::SeedFull, IpOp::Insert(0, 1, 2)],
     ];
     let budget = mc::budget(thorough, 40.0, 1.0);
     let start = clock::wall();
